@@ -605,3 +605,70 @@ M('c18-lazyopener-no-close', 'C18', """        if self._fhandle is not None:
                 self._fhandle.close()
         self._fhandle = None""", """        self._fhandle = None""", 'C18.R1', U)
 T('c18-twin-chunk-const', 'C18', "    _CHUNKSIZE = 65536\n", "    _CHUNKSIZE = 131072\n")
+
+# ------------------------------------------------------------------------------------------------ C01
+M('c01-drop-flush', 'C01', """        if compress:
+            # Write the remaining of the file, if any leftovers are still present in the
+            # compressobj
+            pack_handle.write(compressobj.flush())
+
+        return (count_read_bytes""", """        return (count_read_bytes""", 'C01.R1')
+M('c01-hash-compressed-chunk', 'C01', """            if hash_type:
+                hasher.update(chunk)
+            if compress:
+                pack_handle.write(compressobj.compress(chunk))""", """            if compress:
+                chunk = compressobj.compress(chunk)
+            if hash_type:
+                hasher.update(chunk)
+            if compress:
+                pack_handle.write(chunk)""", 'C01.R1')
+M('c01-literal-sha256', 'C01', "                            ) = compute_hash_and_size(stream, hash_type=self.hash_type)", "                            ) = compute_hash_and_size(stream, hash_type='sha256')", 'C01.R3')
+M('c01-writer-slice-literal', 'C01', """                        / self._hashkey[: self._loose_prefix_len]
+                        / self._hashkey[self._loose_prefix_len :]""", """                        / self._hashkey[:2]
+                        / self._hashkey[2:]""", 'C01.R4', U)
+M('c01-swap-offset-length', 'C01', """                for res in session.execute(stmt):
+                    packs[res[0]].append(ObjQueryResults(res[1], res[2], res[3], res[4], res[5]))
+        else:
+            sorted_hashkeys = sorted(hashkeys_set)""", """                for res in session.execute(stmt):
+                    packs[res[0]].append(ObjQueryResults(res[1], res[3], res[2], res[4], res[5]))
+        else:
+            sorted_hashkeys = sorted(hashkeys_set)""", 'C01.R4')
+M('c01-left-key-zero', 'C01', """            for res, where in detect_where_sorted(pack_iterator, sorted_hashkeys, left_key=lambda x: x[1]):
+                if where == Location.BOTH:
+                    # If it's in both, it returns the left one, i.e. the full data from the DB
+                    packs[res[0]].append(ObjQueryResults(res[1], res[2], res[3], res[4], res[5]))
+
+        for pack_int_id, pack_metadata in packs.items():
+            pack_metadata.sort(key=lambda metadata: metadata.offset)
+            hashkeys_in_packs.update""", """            for res, where in detect_where_sorted(pack_iterator, sorted_hashkeys, left_key=lambda x: x[0]):
+                if where == Location.BOTH:
+                    # If it's in both, it returns the left one, i.e. the full data from the DB
+                    packs[res[0]].append(ObjQueryResults(res[1], res[2], res[3], res[4], res[5]))
+
+        for pack_int_id, pack_metadata in packs.items():
+            pack_metadata.sort(key=lambda metadata: metadata.offset)
+            hashkeys_in_packs.update""", 'C01.R4')
+M('c01-no-decompress-validate', 'C01', """                if compressed:
+                    # I don't pass a LazyLooseStream: in the validate""", """                if False:
+                    # I don't pass a LazyLooseStream: in the validate""", 'C01.R4')
+M('c01-size-is-length', 'C01', """            count_read_bytes += len(chunk)
+            if hash_type:""", """            count_read_bytes += 1
+            if hash_type:""", 'C01.R2')
+M('c01-seed-b-short-read', 'C01', """                chunk = stream.read(_read_chunk_size)
+                if not chunk:
+                    break
+                fhandle.write(chunk)""", """                chunk = stream.read(_read_chunk_size)
+                fhandle.write(chunk)
+                if len(chunk) < _read_chunk_size:
+                    break""", 'C01.R1')
+M('c01-missing-row-key', 'C01', "                    obj_dict['compressed'] = compress\n                    obj_dict['offset'] = pack_handle.tell()", "                    obj_dict['offset'] = pack_handle.tell()", 'C01.R4')
+T('c01-twin-eof-test', 'C01', """                chunk = stream.read(_read_chunk_size)
+                if not chunk:
+                    break
+                fhandle.write(chunk)""", """                chunk = stream.read(_read_chunk_size)
+                if chunk == b'':
+                    break
+                fhandle.write(chunk)""")
+T('c01-twin-chunksize', 'C01', "        _read_chunk_size = 524288\n        writer = self._new_object_writer()", "        _read_chunk_size = 262144\n        writer = self._new_object_writer()")
+
+M('c18-seed-b-unbounded-inflate', 'C18', "                decompressed_chunk = self._decompressor.decompress(compressed_chunk, size)", "                decompressed_chunk = self._decompressor.decompress(compressed_chunk)", 'C18.R5', U)
